@@ -5,7 +5,8 @@ from .common import *
 
 LEVEL_TEXT = ("Coq theorems (C06/Props.v): required_sound - for every mode (finite domain, vm_compute lifted by forallb_forall) each field the evaluation loop dereferences is demanded by _required, stated over the definitions the "
               "translator regenerates from SequentialCB._required and _results.should_pred; on_policy_step / off_policy_step - the call trace and rows of the loop over an abstract learner (one predict then one learn per interaction "
-              "in environment order, with the chosen action, the environment's reward for it, the learner's probability and kwargs; logged triple for learn='off'). A recording learner and generated environments check the real "
+              "in environment order, with the chosen action, the environment's reward for it, the learner's probability and kwargs; logged triple for learn='off'); ModelLoop.step - one iteration of the loop for every learn x eval mode with an explicit learner state and the IPS transform - with theorems for what the learner is taught and what the row records in each mode, "
+              "and the extracted loop compared with the real call trace and rows. A recording learner and generated environments check the real "
               "evaluator for every learn x eval x record subset, batched or not, against the environment data.")
 TRUSTED = ["Coq 8.16.1 kernel (coqc); vm_compute for the finite mode sweep", "translator harness/translate/c06.py (boolean fragment over mode codes; fails closed)", "extraction + ocaml/driver.ml", "harness/c06.py (recording learner, oracle)",
            "modelled not verified: SafeLearner parsing (C15), OpeRewards('IPS'), BatchSafe/Unbatch, Finalize; dr/dm need vowpalwabbit and are outside the property"]
@@ -138,6 +139,7 @@ def run(ctx):
         if exp != set(got): ctx.disagree("C06.required", case, sorted(got), sorted(exp))
     # ---- behaviour
     all_fields = ["context", "actions", "rewards", "action", "reward", "probability"]
+    loop_reqs, loop_metas = [], []
     RECS = [["reward", "action", "probability"], ["reward"], ["action", "context"], ["reward", "time"], ["rewards", "actions", "probability"], []]
     for it in range(ctx.n(700, 9000)):
         learn, ev = rng.choice([None, "on", "off", "ips"]), rng.choice([None, "on", "ips"])
@@ -211,6 +213,29 @@ def run(ctx):
                     rr = 0.25 * r["reward"] / (r.get("probability") or 1)
                     if abs(o.get("reward", 1e9) - rr) > 1e-9: ctx.fail(["evaluate", "row-reward", "ips-score"], "row %d reward %r, expected score*ips = %r" % (k, o.get("reward"), rr), case); ok = False; break
             if ok: ctx.sample(dict(case=case, rows=out[:2], calls=[c[:3] for c in lrn.calls[:4]]), cap=4)
+            # ---- the whole call trace and the rows against the extracted loop model (every mode; un-batched, all fields present)
+            if ok and not batched and set(present) == set(all_fields) and os.path.exists(os.path.join(VERIF, "coq", "theories", "C06", "ModelLoop.v")):
+                from fractions import Fraction as Fr
+                fq = lambda v: s_q(Fr(v))
+                cidx = lambda c: -1 if c is None else (c[0] if isinstance(c, list) else c["a"])
+                wire_env = [[cidx(r.get("context")), list(r["actions"]), [fq(x) for x in rw], j, fq(r["reward"]), [] if r.get("probability") is None else [fq(r["probability"])], r["extra"]] for r, rw, j in rows]
+                trace = []
+                for c in lrn.calls:
+                    if c[0] == "predict": trace.append([0, cidx(c[1]), list(c[2])])
+                    elif c[0] == "score" and c[2] is not None: trace.append([1, cidx(c[1]), list(c[2]), c[3]])
+                    elif c[0] == "learn": trace.append([2, cidx(c[1]), c[2], fq(c[3]), [] if c[4] is None else [fq(c[4])], [c[5]["k"]] if c[5] else []])
+                got_rows = [[[o["action"]] if "action" in o else [], [fq(o["reward"])] if "reward" in o else [], [fq(o["probability"])] if "probability" in o else [], o["extra"]] for o in out]
+                loop_reqs.append((6, [[MODE[learn], MODE[ev], hs, "action" in record, "probability" in record, "reward" in record, fmt == "AP"], wire_env]))
+                loop_metas.append((case, kw, trace, got_rows))
+    ctx.dist["loop-model-traces"] = len(loop_reqs)
+    for (case, kw, trace, got_rows), mo in zip(loop_metas, ctx.get_model().batch([(106, r[1]) for r in loop_reqs])):
+        mev, mrows = mo
+        if not kw: mev = [e[:5] + [[]] if e[0] == 2 else e for e in mev]      # a learner without kwargs is taught without them
+        def norm(x):      # SafeLearner hands the arms 0 and 1 to the learner as 0.0 and 1.0
+            if isinstance(x, list): return [norm(y) for y in x]
+            return int(x) if isinstance(x, float) and x == int(x) else x
+        if norm(trace) != mev or norm(got_rows) != mrows:
+            ctx.disagree("C06.run_loop", case, str((trace, got_rows))[:500], str((mev, mrows))[:500])
     check_learner_outputs(ctx, ctx.n(200, 2500))
     # fixed findings
     ctx.count("corpus", "time-without-learn")
